@@ -355,7 +355,18 @@ def _work(task):
             key = f"{clause}|{cls}"
             found.setdefault(key, {"state": desc, "clause": clause, "detail": detail})
 
-    if kind == "edit":
+    if kind == "pairs":
+        lo, hi = arg
+        for i, (label, proto) in enumerate(gp.gen_models("quick", pairs=True)):
+            if "+" not in label or not (lo <= i < hi):
+                continue
+            try:
+                m = ir.from_proto(proto)
+                m.graph.sort()
+            except Exception:  # noqa: BLE001
+                continue
+            run(["pair", label], "pair_of_deviations", m)
+    elif kind == "edit":
         for ename, ti, m in gen_edit_states(arg):
             run([arg, ename, ti], ename, m)
         for ename, ti, m in gen_shadowing_states(arg):
@@ -394,7 +405,7 @@ def _work(task):
 
 def main(tier):
     r = common.Run("C03", "model_checking", tier)
-    tasks = [("edit", s) for s in c13.sources(tier)] + [("tensor_impl", None)]
+    tasks = [("edit", s) for s in c13.sources(tier)] + [("tensor_impl", None)] + [("pairs", (lo, lo + 40)) for lo in range(0, 320, 40)]
     from mc.alphabet import enabled as en
     from mc.world import World
 
